@@ -25,6 +25,11 @@ def scenarios(ctx: Ctx, res: Result):
     for sc in fam:
         res.count('conflict_family')
         yield sc
+    # re-delivery of an unacknowledged message merged with newer changes (the `dup` variants: delivered, reported failed)
+    for sc in gc.newer_first_family():
+        if any(o.startswith('dup') for o in sc['ops']):
+            res.count('newer_first_family')
+            yield sc
     race = list(gc.loop_race_family())
     for sc in (race if ctx.thorough else ctx.rng.sample(race, 120)):
         res.count('loop_race_family')
